@@ -6,19 +6,26 @@ writes seeded/<id>/result.json : which checks reported a violation (and the repl
 """
 import argparse, json, os, subprocess, sys
 HERE = os.path.dirname(os.path.dirname(os.path.abspath(__file__)))
-ap = argparse.ArgumentParser(); ap.add_argument("sid"); ap.add_argument("--tier", default="quick"); ap.add_argument("--checks", default="")
+ap = argparse.ArgumentParser(); ap.add_argument("sid"); ap.add_argument("--tier", default="quick"); ap.add_argument("--checks", default=""); ap.add_argument("--scratch", action="store_true", help="use a scratch worktree + SOUNDEVENT_SRC instead of /repo itself")
 a = ap.parse_args()
 d = os.path.join(HERE, "seeded", a.sid)
 meta = json.load(open(os.path.join(d, "meta.json")))
 checks = a.checks.split(",") if a.checks else [meta["property"]]
-st = subprocess.run(["git", "-C", "/repo", "status", "--porcelain", "--", "src"], stdout=subprocess.PIPE, text=True).stdout
-if st.strip():
-    sys.exit("refusing: /repo/src has uncommitted changes:\n" + st)
+env = dict(os.environ)
+if a.scratch:
+    target = f"/tmp/seedrun-{a.sid}"
+    subprocess.run(["git", "-C", "/repo", "worktree", "add", "-q", "--detach", target, "HEAD"], check=True)
+    env["SOUNDEVENT_SRC"] = target + "/src"
+else:
+    target = "/repo"
+    st = subprocess.run(["git", "-C", "/repo", "status", "--porcelain", "--", "src"], stdout=subprocess.PIPE, text=True).stdout
+    if st.strip():
+        sys.exit("refusing: /repo/src has uncommitted changes:\n" + st)
 res = {}
 try:
-    subprocess.run(["git", "-C", "/repo", "apply", os.path.join(d, "patch.diff")], check=True)
+    subprocess.run(["git", "-C", target, "apply", os.path.join(d, "patch.diff")], check=True)
     for c in checks:
-        p = subprocess.run(["./check", c, "--tier", a.tier], cwd=HERE, stdout=subprocess.PIPE, stderr=subprocess.PIPE, text=True)
+        p = subprocess.run(["./check", c, "--tier", a.tier], cwd=HERE, env=env, stdout=subprocess.PIPE, stderr=subprocess.PIPE, text=True)
         v = [l for l in p.stdout.splitlines() if l.startswith("VIOLATION")]
         res[c] = {"rc": p.returncode, "violations": v, "stderr_tail": p.stderr[-800:]}
         print(c, "rc=", p.returncode, v[:2])
@@ -29,7 +36,10 @@ try:
             except Exception:
                 pass
 finally:
-    subprocess.run(["git", "-C", "/repo", "checkout", "--", "."], check=True)
-json.dump({"tier": a.tier, "results": res, "caught": any(r["rc"] == 1 for r in res.values())},
+    if a.scratch:
+        subprocess.run(["git", "-C", "/repo", "worktree", "remove", "--force", target], check=True)
+    else:
+        subprocess.run(["git", "-C", "/repo", "checkout", "--", "."], check=True)
+json.dump({"tier": a.tier, "applied_to": "scratch worktree of /repo HEAD (SOUNDEVENT_SRC)" if a.scratch else "/repo", "repo_head": subprocess.run(["git", "-C", "/repo", "rev-parse", "--short", "HEAD"], stdout=subprocess.PIPE, text=True).stdout.strip(), "results": res, "caught": any(r["rc"] == 1 for r in res.values())},
           open(os.path.join(d, "result.json"), "w"), indent=1, default=str)
 print("CAUGHT" if any(r["rc"] == 1 for r in res.values()) else "MISSED")
